@@ -1,5 +1,7 @@
 """C20 — Bloom filter: no false negatives, BIP37 bit schedule, lossless wire form."""
 import math
+import os
+import random
 import struct
 
 from ..framework import Prop, mk, guarded, ensure_repo_on_path, exc_family
@@ -134,11 +136,11 @@ class C20(Prop):
         # (a) MurmurHash3 ------------------------------------------------------------------------
         seeds = [0, 1, 0xffffffff, SCHED, 0x80000000, 0x7fffffff, (SCHED * 2) & 0xffffffff]
         seeds += [s for s in self.pool if 0 <= s <= 0xffffffff and s > 0xffff]
-        for ln in range(0, 68 if not big else 140):
+        for ln in range(0, 68 if not big else 264):
             datas = [bytes(ln), b'\xff' * ln, bytes((7 * j + 1) & 0xff for j in range(ln)), b'\x80' * ln]
-            datas += [rng.randbytes(ln) for _ in range(3 if not big else 12)]
+            datas += [rng.randbytes(ln) for _ in range(3 if not big else 24)]
             for d in datas:
-                for s in seeds + [rng.randrange(1 << 32) for _ in range(2 if not big else 8)]:
+                for s in seeds + [rng.randrange(1 << 32) for _ in range(2 if not big else 16)]:
                     if mine(1):
                         yield mk('c20.murmur', s, d.hex(), tag='murmur')
                         yield mk('c20.spec.murmur', s, d.hex(), tag='murmur-spec')
@@ -163,12 +165,15 @@ class C20(Prop):
                  0.999999, 1.0,
                  # below the stated range: the only way to reach the 50-function cap (2^-50 = 8.88e-16)
                  1e-12, 8e-16, 8.881784197001252e-16, 9e-16, 1e-15, 1e-16, 1e-20, 1e-100, 5e-324]
-        rates += [rng.uniform(1e-9, 0.99) for _ in range(6 if not big else 60)]
-        rates += [10 ** rng.uniform(-9, -0.01) for _ in range(6 if not big else 60)]
+        # the grid itself is drawn from a generator common to all shards (same VERIF_SEED), so that the
+        # `i % nshards == shard` partition is exact: every grid point is run by exactly one shard
+        srng = random.Random('C20:grid:%s:%s' % (os.environ.get('VERIF_SEED', '0') or '0', tier))
+        rates += [srng.uniform(1e-9, 0.99) for _ in range(6 if not big else 150)]
+        rates += [10 ** srng.uniform(-9, -0.01) for _ in range(6 if not big else 150)]
         ns = [1, 2, 3, 4, 5, 7, 8, 10, 16, 50, 100, 255, 256, 1000, 5000, 9999, 10000, 10001, 19999, 20000, 20001,
               25000, 30000, 100000, 10 ** 7]
         ns += [p for p in self.pool if 1 <= p <= 10 ** 6]
-        ns += [rng.randrange(1, 25001) for _ in range(10 if not big else 200)]
+        ns += [srng.randrange(1, 25001) for _ in range(10 if not big else 400)]
         for rate in rates:
             nset = set(ns)
             if rate < 1.0:
@@ -188,9 +193,9 @@ class C20(Prop):
                   (10, 1e-9), (50, 0.001), (100, 0.5), (1, 1e-16), (1, 0.999), (1, 1.0), (400, 0.0001)]
         bigshapes = [(20000, 0.001), (10000, 0.000001), (25000, 1e-9), (1000, 1e-9)]
         tweaks = [0, 1, 0xffffffff, 0x80000000, 2147483649, SCHED, (1 << 32) - SCHED]
-        nrep = 6 if not big else 60
+        nrep = 6 if not big else 600
         for rep in range(nrep):
-            for (n, rate) in shapes + [(rng.randrange(1, 200), 10 ** rng.uniform(-9, -0.01)) for _ in range(4)]:
+            for (n, rate) in shapes + [(srng.randrange(1, 200), 10 ** srng.uniform(-9, -0.01)) for _ in range(4)]:
                 if not mine(1):
                     continue
                 tw = rng.choice(tweaks + [rng.randrange(1 << 32)])
@@ -199,7 +204,7 @@ class C20(Prop):
                 ops = self._history(rng, rng.choice([3, 8, 20, 40]), dump_each=True)
                 yield mk('c20.hist', init, ','.join(ops), tag='hist')
                 yield mk('c20.spec.hist', init, ','.join(ops), tag='hist-spec')
-        for rep in range(1 if not big else 6):
+        for rep in range(1 if not big else 40):
             for (n, rate) in bigshapes:
                 if not mine(1):
                     continue
@@ -208,7 +213,7 @@ class C20(Prop):
                 yield mk('c20.hist', init, ','.join(ops), tag='hist-big')
                 yield mk('c20.spec.hist', init, ','.join(ops), tag='hist-big-spec')
         # one-byte filter driven until the 0xff shortcut is reached
-        for rep in range(2 if not big else 10):
+        for rep in range(2 if not big else 100):
             if mine(1):
                 init = self._fresh(1, 0.02, rng.randrange(1 << 32), 0)
                 es = self._elems(rng, 14)
@@ -225,9 +230,10 @@ class C20(Prop):
 
         # (d) filters from the wire ------------------------------------------------------------------
         datas = [b'', b'', b'\x00', b'\xff', b'\xfe', b'\x01', b'\x00\x00', b'\xff\xff', bytes(3), bytes(8),
+                 b'\xff\x00', b'\xff\x00\x00\x00', b'\xff' + bytes(20), b'\x00\xff',
                  b'\xff' * 7 + b'\x7f', bytes(100), bytes(252), bytes(253), bytes(300)]
         ks = [0, 1, 2, 3, 5, 11, 50, 51, 200, 1000]
-        for rep in range(3 if not big else 25):
+        for rep in range(3 if not big else 300):
             for d in datas + [rng.randbytes(rng.choice([1, 2, 5, 16, 64])) for _ in range(4)]:
                 if not mine(1):
                     continue
@@ -400,7 +406,11 @@ class C20(Prop):
     def signature(self, c, io, mo):
         if c['op'] in ('c20.hist', 'c20.spec.hist') and 'err:py:ZeroDivisionError' in io:
             init = c['args'][0]
-            empty = (init.startswith('w:00') or (init.startswith('n:') and init.split(':')[3] == '0'))
+            empty = init.startswith('n:') and init.split(':')[3] == '0'
+            if init.startswith('w:'):
+                b = bytes.fromhex(init[2:])
+                width = {0xfd: 2, 0xfe: 4, 0xff: 8}.get(b[0] if b else 1, 0)
+                empty = bool(b) and (b[0] == 0 if width == 0 else int.from_bytes(b[1:1 + width], 'little') == 0)
             if empty and 'err:' not in mo:
                 return 'D16-bloom-empty-vdata-zerodivision'
         return None
